@@ -26,6 +26,7 @@ RULE = (
     "/ outcome of the other calls); two throttled functions used interleaved (own windows); long patterns of 8..16 calls (a gap cycle of length <= 2 repeated, then <= 2 free gaps; limits 1..4; tie orders with a stated deviation bound); non-trivial = at least one call was delayed or more than `limit` calls "
     "arrived within one period"
 )
+RULE += ' Round 11: periods 9/8192 s, 1 + 1/1024 s, timedelta(days=1, microseconds=15625), int; round 13: two same-named functions with the same settings.'
 ASSUMPTIONS = [
     "virtual time in exact dyadic units (P = 1.0 as float, 1.5 s as timedelta)",
     "arrival order = order in which the wrapper was invoked",
